@@ -211,7 +211,14 @@ func (c *Ctx) Add(rule, construct string, pos token.Pos, v Verdict, msg string) 
 	c.Obls = append(c.Obls, Obligation{Key: rule + "/" + construct, Rule: rule, Pos: c.RelPos(pos), Verdict: v, Msg: msg})
 }
 
+// Floor records a vacuity guard. The call sites pass the instance count confirmed by hand on the reference tree (or a
+// little below it); the check fails only when fewer than half of them are left, because a refactoring that merges two
+// call sites into a helper, or splits one, legitimately moves the count by a few — it must not make the rule vacuous,
+// and it must not make the check cry wolf either.
 func (c *Ctx) Floor(rule, what string, got, min int) {
+	if min > 1 {
+		min = (min + 1) / 2
+	}
 	c.Floors = append(c.Floors, Floor{rule, what, got, min})
 }
 
